@@ -32,6 +32,7 @@ import (
 	"path/filepath"
 	"sort"
 	"strings"
+	"sync/atomic"
 	"time"
 
 	"go.uber.org/zap"
@@ -50,6 +51,7 @@ import (
 	"github.com/ozontech/seq-db/seq"
 	"github.com/ozontech/seq-db/storeapi"
 	"github.com/ozontech/seq-db/util"
+	"github.com/ozontech/seq-db/verifhook"
 
 	"verifharness/internal/vh"
 )
@@ -749,12 +751,93 @@ func ensuredChannel(o vh.Opts, r *vh.RNG, rep *vh.Report) {
 	rep.AddChannel(ch, o.Driver)
 }
 
+// ---------------------------------------------------------------- metaDataCollector borders (pure)
+
+func collectorChannel(o vh.Opts, r *vh.RNG, rep *vh.Report) {
+	ch := vh.NewChannel("collector.stats", "real frac.metaDataCollector (export of C17): AppendMeta of a bulk, then Filter(appended) as appendWorker does for a retried bulk; MinMID / MaxMID / surviving IDs vs SV.FracInfo.collectorStats / survivors: every order of up to 4 IDs over MIDs 1..4 and every subset as `appended`, plus random longer bulks; non-trivial = Filter ran and the first survivor carries the largest MID")
+	ch.Exhaustive = true
+	add := func(ids []seq.ID, keep []bool) {
+		c := frac.VerifNewCollectorC17()
+		c.Init(0)
+		var idsS, appS []string
+		var appended []seq.ID
+		all := true
+		for i, id := range ids {
+			c.AppendMeta(frac.MetaData{ID: id, Size: 10, Tokens: []frac.MetaToken{{Key: []byte("service"), Value: []byte("c14")}}})
+			idsS = append(idsS, fmt.Sprintf("%d.%d", uint64(id.MID), uint64(id.RID)))
+			if keep[i] {
+				appended = append(appended, id)
+				appS = append(appS, idsS[i])
+			} else {
+				all = false
+			}
+		}
+		app := "all"
+		if !all {
+			c.Filter(appended)
+			app = vh.JoinStrs(appS, ",")
+		}
+		st := c.State()
+		var sv []string
+		for _, id := range st.IDs {
+			sv = append(sv, fmt.Sprintf("%d.%d", uint64(id.MID), uint64(id.RID)))
+		}
+		nt := !all && len(appended) > 1
+		if nt {
+			for _, id := range appended[1:] {
+				nt = nt && id.MID < appended[0].MID
+			}
+		}
+		tag := "filter=no"
+		if !all {
+			tag = "filter=yes"
+		}
+		ch.Add(fmt.Sprintf("collect %s %s", vh.JoinStrs(idsS, ","), app), fmt.Sprintf("ok %d %d %s", uint64(st.MinMID), uint64(st.MaxMID), vh.JoinStrs(sv, ",")), nt, tag, fmt.Sprintf("survivors=%d", len(appended)))
+	}
+	// all sequences of 1..4 distinct IDs with MIDs from 1..4 (RID = position of first use), all keep masks
+	var rec func(cur []seq.ID)
+	rec = func(cur []seq.ID) {
+		if len(cur) > 0 {
+			for mask := 0; mask < 1<<len(cur); mask++ {
+				keep := make([]bool, len(cur))
+				for i := range keep {
+					keep[i] = mask>>i&1 == 1
+				}
+				add(cur, keep)
+			}
+		}
+		if len(cur) == 4 || (!o.Thorough() && len(cur) == 3) {
+			return
+		}
+		for m := 1; m <= 4; m++ {
+			rec(append(append([]seq.ID{}, cur...), seq.ID{MID: seq.MID(m), RID: seq.RID(len(cur) + 1)}))
+		}
+	}
+	rec(nil)
+	for i := 0; i < o.Pick(300, 3000); i++ {
+		n := r.Range(1, 12)
+		base := uint64(1_700_000_000_000)
+		ids := make([]seq.ID, n)
+		keep := make([]bool, n)
+		for j := range ids {
+			ids[j] = seq.ID{MID: seq.MID(base + uint64(r.Intn(1000))), RID: seq.RID(j + 1)}
+			keep[j] = r.Chance(2, 3)
+		}
+		if r.Chance(1, 3) { // newest first
+			sort.Slice(ids, func(a, b int) bool { return ids[a].MID > ids[b].MID })
+		}
+		add(ids, keep)
+	}
+	rep.AddChannel(ch, o.Driver)
+}
+
 // ---------------------------------------------------------------- system: real fractions in a child process
 
 type docSpec struct {
 	Off int64  `json:"off,omitempty"` // MID = creation time of the fraction + Off (ms)
 	Abs uint64 `json:"abs,omitempty"` // absolute MID when non-zero (MID 0 means "no ID" to DocProvider: not used)
 	R0  bool   `json:"r0,omitempty"`  // Off is relative to the creation time of fraction 0 (shared milliseconds across fractions)
+	Dup int    `json:"dup,omitempty"` // > 0: not a new document but the Dup-th document ingested into this fraction again (same ID): a retried bulk
 }
 
 type fracSpec struct {
@@ -764,6 +847,10 @@ type fracSpec struct {
 	// With Dense > consts.LIDBlockCap the posting list of the token service:c14 spans several LID blocks.
 	Dense       int   `json:"dense,omitempty"`
 	DenseSpread int64 `json:"dense_spread,omitempty"`
+	// Late (last fraction only): bulks that are written while the index workers are held, so that they are still
+	// queued when the sealing of the fraction begins (readonly set); the workers are released then, the sealer is held
+	// before it builds the sealed fraction and the stage "sealing" is checked in that state
+	Late [][]docSpec `json:"late,omitempty"`
 }
 
 type scenario struct {
@@ -880,40 +967,73 @@ func childMain(path string) {
 	ctx := context.Background()
 	var fracs []realFrac
 	rid := uint64(1)
+	var holdIdx, holdSeal atomic.Bool
+	idxReached, sealBegun, sealIdle := make(chan struct{}, 1), make(chan struct{}, 1), make(chan struct{}, 1)
+	releaseIdx, releaseSeal, sealDone := make(chan struct{}), make(chan struct{}), make(chan struct{})
+	raceHeld := false
+	waitFor := func(ch chan struct{}, what string) {
+		select {
+		case <-ch:
+		case <-time.After(20 * time.Second):
+			fmt.Println("child-error interleaving: timeout waiting for", what)
+			os.Exit(3)
+		}
+	}
 	for k, fs := range sc.Fracs {
 		act := st.fm.Active()
 		rf := realFrac{name: act.Info().Name(), ct: act.Info().CreationTime}
-		var specBulks [][]uint64 // absolute MIDs per bulk
-		for _, b := range fs.Bulks {
-			var mids []uint64
-			for _, d := range b {
-				mid := uint64(int64(rf.ct) + d.Off)
-				if d.R0 && len(fracs) > 0 {
-					mid = uint64(int64(fracs[0].ct) + d.Off)
+		type specDoc struct {
+			mid uint64
+			dup int
+		}
+		resolve := func(bs [][]docSpec) [][]specDoc {
+			var res [][]specDoc
+			for _, b := range bs {
+				var ds []specDoc
+				for _, d := range b {
+					mid := uint64(int64(rf.ct) + d.Off)
+					if d.R0 && len(fracs) > 0 {
+						mid = uint64(int64(fracs[0].ct) + d.Off)
+					}
+					if d.Abs != 0 {
+						mid = d.Abs
+					}
+					ds = append(ds, specDoc{mid, d.Dup})
 				}
-				if d.Abs != 0 {
-					mid = d.Abs
-				}
-				mids = append(mids, mid)
+				res = append(res, ds)
 			}
-			specBulks = append(specBulks, mids)
+			return res
+		}
+		specBulks := resolve(fs.Bulks)
+		hasDup := false
+		for _, b := range fs.Bulks {
+			for _, d := range b {
+				hasDup = hasDup || d.Dup > 0
+			}
 		}
 		if fs.Dense > 0 {
 			rf.dense, rf.base = fs.Dense, uint64(int64(rf.ct)-fs.DenseSpread)
 			for i := 0; i < fs.Dense; i += 5000 {
-				var mids []uint64
+				var ds []specDoc
 				for j := i; j < min(i+5000, fs.Dense); j++ {
-					mids = append(mids, rf.base+uint64(j))
+					ds = append(ds, specDoc{rf.base + uint64(j), 0})
 				}
-				specBulks = append(specBulks, mids)
+				specBulks = append(specBulks, ds)
 			}
 		}
-		for _, mids := range specBulks {
+		var ingested []realDoc // the distinct documents of this fraction, ingestion order
+		sendBulk := func(ds []specDoc) []realDoc {
 			dp := frac.NewDocProvider()
 			var rb []realDoc
-			for _, mid := range mids {
-				dp.Append(docBody(mid, rid), nil, seq.ID{MID: seq.MID(mid), RID: seq.RID(rid)}, seq.Tokens("_all_:", "service:c14"))
-				rb = append(rb, realDoc{mid, rid})
+			for _, d := range ds {
+				if d.dup > 0 && d.dup <= len(ingested) { // the same ID (and body) again
+					o := ingested[d.dup-1]
+					dp.Append(docBody(o.mid, o.rid), nil, seq.ID{MID: seq.MID(o.mid), RID: seq.RID(o.rid)}, seq.Tokens("_all_:", "service:c14"))
+					continue
+				}
+				dp.Append(docBody(d.mid, rid), nil, seq.ID{MID: seq.MID(d.mid), RID: seq.RID(rid)}, seq.Tokens("_all_:", "service:c14"))
+				rb = append(rb, realDoc{d.mid, rid})
+				ingested = append(ingested, realDoc{d.mid, rid})
 				rid++
 			}
 			req := &pb.BulkRequest{Count: int64(dp.DocCount)}
@@ -922,7 +1042,59 @@ func childMain(path string) {
 				fmt.Println("child-error bulk:", err)
 				os.Exit(3)
 			}
-			rf.bulks = append(rf.bulks, rb)
+			return rb
+		}
+		for _, ds := range specBulks {
+			rf.bulks = append(rf.bulks, sendBulk(ds)) // for the model a bulk is its new documents (survivors of the duplicate filter)
+			if hasDup {
+				st.fm.WaitIdle() // a retry comes after the first attempt was indexed
+			}
+		}
+		st.fm.WaitIdle()
+		if k == len(sc.Fracs)-1 && len(fs.Late) > 0 {
+			// ---- sealing starts while bulks of the fraction are still queued in the index workers
+			verifhook.Set(func(name, _ string, _ []int64) {
+				switch name {
+				case "c07.aidx.start":
+					if holdIdx.Load() {
+						select {
+						case idxReached <- struct{}{}:
+						default:
+						}
+						<-releaseIdx
+					}
+				case "c07.pf.seal.begin":
+					select {
+					case sealBegun <- struct{}{}:
+					default:
+					}
+				case "c07.pf.seal.idle":
+					if holdSeal.Load() {
+						select {
+						case sealIdle <- struct{}{}:
+						default:
+						}
+						<-releaseSeal
+					}
+				}
+			})
+			holdIdx.Store(true)
+			for _, ds := range resolve(fs.Late) {
+				rf.bulks = append(rf.bulks, sendBulk(ds))
+			}
+			waitFor(idxReached, "index worker reached c07.aidx.start")
+			holdSeal.Store(true)
+			go func() {
+				st.fm.SealForcedForTests()
+				close(sealDone)
+			}()
+			waitFor(sealBegun, "c07.pf.seal.begin")
+			holdIdx.Store(false)
+			close(releaseIdx)
+			waitFor(sealIdle, "c07.pf.seal.idle") // everything is indexed, the sealed fraction is not built yet
+			raceHeld = true
+			fracs = append(fracs, rf)
+			continue
 		}
 		st.fm.WaitIdle()
 		if fs.Sealed || k < len(sc.Fracs)-1 {
@@ -1275,6 +1447,15 @@ func childMain(path string) {
 		}
 	}
 
+	if raceHeld {
+		stageChecks("sealing")
+		holdSeal.Store(false)
+		close(releaseSeal)
+		waitFor(sealDone, "end of SealForcedForTests")
+		verifhook.Set(nil)
+		st.fm.WaitIdle()
+		fracs[len(fracs)-1].sealed = true
+	}
 	stageChecks("live")
 	// restart 1: whatever the store persisted (sealed infos come from .frac-cache when it was written, else from the index)
 	if st.fm.Active().Info().DocsTotal > 0 {
@@ -1454,6 +1635,68 @@ func tiesWitness(seed int64) scenario {
 		{Sealed: true, Bulks: [][]docSpec{{{Off: t + 5, R0: true}, {Off: t, R0: true}}}},
 		{Sealed: true, Bulks: [][]docSpec{{{Off: t, R0: true}, {Off: t - 5, R0: true}}}},
 		{Sealed: false, Bulks: [][]docSpec{{{Off: t - 5, R0: true}, {Off: t - 9, R0: true}, {Off: t - 9, R0: true}}}},
+	}}
+}
+
+// partially retried bulks: the retry repeats stored IDs and carries new documents that are not in ascending time
+// order (newest first, single new document, new documents beyond the current From / To on both sides)
+func retriedWitness(seed int64) scenario {
+	return scenario{Name: "retried-witness", Seed: seed, Queries: 8, Fetches: 4, Fracs: []fracSpec{
+		{Sealed: true, Bulks: [][]docSpec{{{Off: -2_000_000}, {Off: -1_999_000}}, {{Off: -1000}, {Dup: 1}, {Off: -3_000_000}}, {{Dup: 2}, {Off: -500}}}},
+		{Sealed: true, Bulks: [][]docSpec{{{Off: -700_000}}, {{Dup: 1}, {Off: 5000}, {Off: -900_000}}}},
+		{Sealed: false, Bulks: [][]docSpec{{{Off: -100}, {Off: -90}}, {{Off: -10}, {Dup: 1}}, {{Dup: 3}, {Dup: 2}}}},
+	}}
+}
+
+func retriedScenario(r *vh.RNG, name string) scenario {
+	sc := scenario{Name: name, Seed: int64(r.U64() >> 1), Queries: 10, Fetches: 4}
+	nf := r.Range(2, 3)
+	for k := 0; k < nf; k++ {
+		fs := fracSpec{Sealed: k < nf-1 || r.Bool()}
+		n := 0 // distinct documents so far
+		lo, hi := int64(-1_500_000), int64(-1_400_000)
+		first := []docSpec{{Off: lo}, {Off: hi}}
+		fs.Bulks = append(fs.Bulks, first)
+		n = 2
+		for b := 0; b < r.Range(1, 3); b++ {
+			var fresh []docSpec
+			for j := 0; j < r.Range(1, 3); j++ {
+				var off int64
+				switch r.Intn(3) {
+				case 0:
+					hi += int64(r.Range(1, 400_000)) // beyond To
+					off = hi
+				case 1:
+					lo -= int64(r.Range(1, 400_000)) // beyond From
+					off = lo
+				default:
+					off = lo + int64(r.Intn(int(hi-lo)+1))
+				}
+				fresh = append(fresh, docSpec{Off: off})
+			}
+			sort.Slice(fresh, func(a, b int) bool { return fresh[a].Off > fresh[b].Off }) // newest first
+			bulk := append([]docSpec{}, fresh...)
+			for j := 0; j < r.Range(1, 2); j++ { // the retried part, somewhere in the bulk
+				at := r.Intn(len(bulk) + 1)
+				bulk = append(bulk[:at], append([]docSpec{{Dup: r.Range(1, n)}}, bulk[at:]...)...)
+			}
+			fs.Bulks = append(fs.Bulks, bulk)
+			n += len(fresh)
+		}
+		sc.Fracs = append(sc.Fracs, fs)
+	}
+	return sc
+}
+
+// sealing begins while bulks of the fraction are still queued (see fracSpec.Late)
+func sealRaceScenario(seed int64, variant int) scenario {
+	late := [][]docSpec{{{Off: -5}}, {{Off: -2_000_000}}, {{Off: -650_000}, {Off: 70_000}}}
+	if variant == 1 {
+		late = [][]docSpec{{{Off: 1_000}, {Off: -3_000_000}, {Off: -750_000}}}
+	}
+	return scenario{Name: fmt.Sprintf("seal-race%d", variant), Seed: seed, Queries: 10, Fetches: 4, Fracs: []fracSpec{
+		{Sealed: true, Bulks: [][]docSpec{{{Off: -900_000}, {Off: -100}}}},
+		{Sealed: true, Bulks: [][]docSpec{{{Off: -800_000}, {Off: -700_000}}}, Late: late},
 	}}
 }
 
@@ -1643,6 +1886,9 @@ func main() {
 	if run("searcher") {
 		ensuredChannel(o, rng.Fork(), rep)
 	}
+	if run("collector") {
+		collectorChannel(o, rng.Fork(), rep)
+	}
 	if run("prune") || run("frac") {
 		r := rng.Fork()
 		var scs []scenario
@@ -1650,6 +1896,11 @@ func main() {
 		scs = append(scs, denseScenario(int64(r.U64()>>1), o.Thorough()))
 		scs = append(scs, sparseLateScenario(int64(r.U64()>>1)))
 		scs = append(scs, tiesWitness(int64(r.U64()>>1)))
+		scs = append(scs, retriedWitness(int64(r.U64()>>1)))
+		scs = append(scs, sealRaceScenario(int64(r.U64()>>1), 0), sealRaceScenario(int64(r.U64()>>1), 1))
+		for i := 0; i < o.Pick(2, 8); i++ {
+			scs = append(scs, retriedScenario(r.Fork(), fmt.Sprintf("retried%d", i)))
+		}
 		for i := 0; i < o.Pick(3, 10); i++ {
 			scs = append(scs, tiesScenario(r.Fork(), fmt.Sprintf("ties%d", i)))
 		}
